@@ -2,6 +2,7 @@
 # Regenerates every evidence file on the (clean) current tree and validates it. usage: run_all.sh [quick|thorough]
 tier=${1:-quick}
 cd "$(dirname "$0")/.."
+mkdir -p .build
 if [ -n "$(git -C /repo status --porcelain)" ]; then echo "/repo is dirty - refusing"; exit 3; fi
 rc_all=0
 for c in C17 C19 C15 C14 C18 C20 C16 C01 C05; do
@@ -14,7 +15,7 @@ done
 /usr/local/bin/python3-vt - <<'PY'
 import json, jsonschema, glob
 sch = json.load(open('/root/.vp/EVIDENCE.schema.json'))
-for f in sorted(glob.glob('/verif/evidence/*.json')):
+for f in sorted(glob.glob('evidence/*.json')):
     e = json.load(open(f))
     jsonschema.validate(e, sch)
     c = e['coverage']
